@@ -108,7 +108,7 @@ def ensure_model(group, api_module=None, dispatch=None, slow=False):
 def _run_chunk(args):
     exe, lines, extra, timeout = args
     p = subprocess.run([exe] + extra, input=('\n'.join(lines) + '\n').encode(), stdout=subprocess.PIPE, stderr=subprocess.PIPE, timeout=timeout)
-    out = p.stdout.decode().split('\n')
+    out = p.stdout.decode('utf-8', 'replace').split('\n')
     if out and out[-1] == '': out.pop()
     return p.returncode, out, p.stderr.decode('utf-8', 'replace')
 
